@@ -181,16 +181,31 @@ def run(ctx) -> None:
               f"yield condition: {ycond.to_dnf()}", loc=im.loc(ys[0]))
     # overlap predicate
     rets = [n for n in ast.walk(ho.node) if isinstance(n, ast.Return) and isinstance(n.value, ast.Constant) and n.value.value is True]
-    ctx.require(len(rets) == 1, "_has_overlap shape changed")
-    hcfg = cfgs.get(ho.fq)
-    hpc = PathCond(hcfg)
-    rn = hcfg.node_containing(rets[0].value)
-    cond = hpc.reach(rn)
     needle = ho.params[0]
-    span_var = [n for n in walk_no_nested(ho.node) if isinstance(n, ast.For)]
-    ctx.require(len(span_var) == 1 and isinstance(span_var[0].target, ast.Name), "_has_overlap loop shape changed")
-    sv = span_var[0].target.id
-    test_expr = rets[0]
+    any_form = None
+    if not rets:
+        # `return any(<test> for span in haystack)`
+        r_all = [n for n in walk_no_nested(ho.node) if isinstance(n, ast.Return) and n.value is not None]
+        if len(r_all) == 1:
+            v = shapes.inline(ho, r_all[0].value, prog)
+            if isinstance(v, ast.Call) and unparse(v.func) == "any" and len(v.args) == 1 and isinstance(v.args[0], (ast.GeneratorExp, ast.ListComp)) \
+                    and len(v.args[0].generators) == 1 and isinstance(v.args[0].generators[0].target, ast.Name) and not v.args[0].generators[0].ifs \
+                    and unparse(v.args[0].generators[0].iter) == ho.params[1]:
+                any_form = v.args[0]
+    if any_form is not None:
+        sv = any_form.generators[0].target.id
+        test_expr = any_form.elt
+        cond = None
+    else:
+        ctx.require(len(rets) == 1, "_has_overlap shape changed")
+        hcfg = cfgs.get(ho.fq)
+        hpc = PathCond(hcfg)
+        rn = hcfg.node_containing(rets[0].value)
+        cond = hpc.reach(rn)
+        span_var = [n for n in walk_no_nested(ho.node) if isinstance(n, ast.For)]
+        ctx.require(len(span_var) == 1 and isinstance(span_var[0].target, ast.Name), "_has_overlap loop shape changed")
+        sv = span_var[0].target.id
+        test_expr = rets[0]
 
     def classify(leaf: ast.AST) -> T.Tuple[str, bool]:
         cs = shapes.compare_shape(leaf)
@@ -213,7 +228,7 @@ def run(ctx) -> None:
             return "END_GE_START", False
         raise AnalysisError(f"C03/R3: overlap leaf not enumerated: {unparse(leaf)}")
 
-    ov = shapes.semantic_bf(cond, ho, classify, prog)
+    ov = shapes.semantic_bf(cond, ho, classify, prog) if cond is not None else shapes.bool_expr_bf(test_expr, classify)
     spec = BF.var("SAME_LINE") & BF.var("START_LE_END") & BF.var("END_GE_START")
     ctx.check("R3", ov.equiv(spec), "_has_overlap: same line and both interval conditions",
               "parse._has_overlap: predicate is not 'same line and intervals intersect'",
